@@ -30,6 +30,26 @@ struct Shared {
     ctx: Arc<RunCtx>,
     senders: Mutex<HashMap<String, Sender<Box<Event>>>>,
     sends: Mutex<Vec<Value>>,
+    /// session ids of the started sessions, for "$sid:NAME" placeholders in event payloads
+    sids: Mutex<HashMap<String, u32>>,
+}
+
+fn substitute(v: &Value, sids: &HashMap<String, u32>) -> Value {
+    match v {
+        Value::String(s) => {
+            if let Some(name) = s.strip_prefix("$sid:") {
+                match sids.get(name) {
+                    Some(id) => json!(*id),
+                    None => v.clone(),
+                }
+            } else {
+                v.clone()
+            }
+        }
+        Value::Array(a) => Value::Array(a.iter().map(|x| substitute(x, sids)).collect()),
+        Value::Object(o) => Value::Object(o.iter().map(|(k, x)| (k.clone(), substitute(x, sids))).collect()),
+        _ => v.clone(),
+    }
 }
 
 fn total_records(ctx: &RunCtx) -> usize {
@@ -51,9 +71,88 @@ fn settle(ctx: &RunCtx, quiet_ms: u64, deadline: Instant) {
     }
 }
 
-fn producer_steps(sh: &Arc<Shared>, producer: usize, steps: &[Value]) {
+struct StartEnv {
+    executor: FsmExecutor,
+    defs: Vec<Value>,
+    dir: String,
+    started: Mutex<HashMap<String, Started>>,
+    names: Mutex<Vec<Value>>,
+    errors: Mutex<Vec<Value>>,
+}
+
+fn start_session(sh: &Arc<Shared>, env: &Arc<StartEnv>, name: &str) {
+    let ctx = &sh.ctx;
+    let def = env.defs.iter().find(|d| d.get("name").and_then(|x| x.as_str()) == Some(name));
+    let Some(def) = def else {
+        env.errors.lock().unwrap().push(json!(format!("unknown session {}", name)));
+        return;
+    };
+    let xml = def.get("xml").and_then(|x| x.as_str()).unwrap_or("");
+    let entry = def.get("entry").and_then(|x| x.as_str()).unwrap_or("start");
+    let mut data = Vec::new();
+    if let Some(Value::Object(o)) = def.get("data") {
+        for (k, v) in o {
+            data.push(ParamPair::new(k, &json_to_data(v)));
+        }
+    }
+    let mut executor = env.executor.clone();
+    if entry == "execute" {
+        // through FsmExecutor::execute: the Fsm (and its tracer) is created inside the library
+        let path = format!("{}/{}.scxml", env.dir, name);
+        let _ = std::fs::write(&path, xml);
+        let dummy = ctx.new_session();
+        set_cur(ctx, &dummy);
+        let before = ctx.sessions.lock().unwrap().len();
+        let r = std::panic::catch_unwind(std::panic::AssertUnwindSafe(|| {
+            // (the reader resolves names relative to the include paths; absolute paths are not supported by it)
+            executor.execute(&format!("{}.scxml", name), make_actions(), rufsm::tracer::TraceMode::ALL)
+        }));
+        crate::rec::clear_cur();
+        match r {
+            Ok(Ok(session)) => {
+                // the tracer created for this Fsm is the first log created by this thread after `before`
+                let log = ctx.sessions.lock().unwrap().iter().skip(before).find(|l| {
+                    l.owner.lock().unwrap().as_deref() == Some(std::thread::current().name().unwrap_or("?"))
+                }).cloned();
+                if let Some(log) = log {
+                    let tname = session.thread.as_ref().map(|t| t.thread().name().unwrap_or("?").to_string()).unwrap_or_default();
+                    sh.senders.lock().unwrap().insert(name.to_string(), session.sender.clone());
+                    sh.sids.lock().unwrap().insert(name.to_string(), session.session_id);
+                    env.names.lock().unwrap().push(json!([name, log.idx, session.session_id]));
+                    env.started.lock().unwrap().insert(name.to_string(), Started { log, sender: session.sender.clone(), session_id: session.session_id, thread: session.thread, tname });
+                } else {
+                    env.errors.lock().unwrap().push(json!(format!("no tracer created for {}", name)));
+                }
+            }
+            Ok(Err(e)) => env.errors.lock().unwrap().push(json!(format!("execute {} failed: {}", name, e))),
+            Err(_) => env.errors.lock().unwrap().push(json!(format!("execute {} panicked: {}", name,
+                take_panics_for(std::thread::current().name().unwrap_or("?")).join("; ")))),
+        }
+    } else {
+        match crate::run::parse_guarded(xml, &[std::path::PathBuf::from(&env.dir)]) {
+            Err(e) => env.errors.lock().unwrap().push(json!(format!("parse {}: {}", name, e))),
+            Ok(mut fsm) => {
+                let log = ctx.new_session();
+                fsm.tracer = Box::new(Rec { ctx: ctx.clone(), log: log.clone(), start_gate: false });
+                let session = fsm::start_fsm_with_data_and_finish_mode(
+                    fsm, make_actions(), Box::new(executor.clone()), &data, FinishMode::KEEP_CONFIGURATION);
+                let tname = session.thread.as_ref().map(|t| t.thread().name().unwrap_or("?").to_string()).unwrap_or_default();
+                sh.senders.lock().unwrap().insert(name.to_string(), session.sender.clone());
+                sh.sids.lock().unwrap().insert(name.to_string(), session.session_id);
+                env.names.lock().unwrap().push(json!([name, log.idx, session.session_id]));
+                env.started.lock().unwrap().insert(name.to_string(), Started { log, sender: session.sender.clone(), session_id: session.session_id, thread: session.thread, tname });
+            }
+        }
+    }
+}
+
+fn producer_steps(sh: &Arc<Shared>, env: &Arc<StartEnv>, producer: usize, steps: &[Value]) {
     let mut seq = 0usize;
     for st in steps {
+        if let Some(name) = st.get("start").and_then(|x| x.as_str()) {
+            start_session(sh, env, name);
+            continue;
+        }
         if let Some(ms) = st.get("sleep").and_then(|x| x.as_u64()) {
             std::thread::sleep(Duration::from_millis(ms));
         } else if let Some(us) = st.get("sleep_us").and_then(|x| x.as_u64()) {
@@ -63,7 +162,8 @@ fn producer_steps(sh: &Arc<Shared>, producer: usize, steps: &[Value]) {
         } else if let Some(to) = st.get("send").and_then(|x| x.as_str()) {
             let sender = sh.senders.lock().unwrap().get(to).cloned();
             if let Some(s) = sender {
-                let e = make_event(st.get("event").unwrap_or(&Value::Null));
+                let evj = substitute(st.get("event").unwrap_or(&Value::Null), &sh.sids.lock().unwrap());
+                let e = make_event(&evj);
                 seq += 1;
                 // the record is written before the send so that it is never later than the reception
                 sh.sends.lock().unwrap().push(json!([producer, seq, to, e.name, sh.ctx.us()]));
@@ -79,7 +179,7 @@ pub fn run_scenario(job: &Value) -> Value {
     let timeout_ms = job.get("timeout_ms").and_then(|x| x.as_u64()).unwrap_or(15000);
     let deadline = Instant::now() + Duration::from_millis(timeout_ms);
     let ctx = RunCtx::new();
-    let sh = Arc::new(Shared { ctx: ctx.clone(), senders: Mutex::new(HashMap::new()), sends: Mutex::new(Vec::new()) });
+    let sh = Arc::new(Shared { ctx: ctx.clone(), senders: Mutex::new(HashMap::new()), sends: Mutex::new(Vec::new()), sids: Mutex::new(HashMap::new()) });
     let mut executor = FsmExecutor::new_without_io_processor();
     executor.set_include_paths(&vec![std::path::PathBuf::from(&dir)]);
     if let Some(Value::Object(o)) = job.get("options") {
@@ -91,8 +191,8 @@ pub fn run_scenario(job: &Value) -> Value {
     let es = executor.state.clone();
     let empty = Vec::new();
     let defs = job.get("sessions").and_then(|x| x.as_array()).unwrap_or(&empty);
-    let mut started: HashMap<String, Started> = HashMap::new();
-    let mut names: Vec<Value> = Vec::new();
+    let env = Arc::new(StartEnv { executor: executor.clone(), defs: defs.clone(), dir: dir.clone(), started: Mutex::new(HashMap::new()),
+                                  names: Mutex::new(Vec::new()), errors: Mutex::new(Vec::new()) });
     let mut errors: Vec<Value> = Vec::new();
 
     let steps = job.get("steps").and_then(|x| x.as_array()).unwrap_or(&empty);
@@ -102,68 +202,15 @@ pub fn run_scenario(job: &Value) -> Value {
             break;
         }
         if let Some(name) = st.get("start").and_then(|x| x.as_str()) {
-            let def = defs.iter().find(|d| d.get("name").and_then(|x| x.as_str()) == Some(name));
-            let Some(def) = def else {
-                errors.push(json!(format!("unknown session {}", name)));
-                continue;
-            };
-            let xml = def.get("xml").and_then(|x| x.as_str()).unwrap_or("");
-            let entry = def.get("entry").and_then(|x| x.as_str()).unwrap_or("start");
-            let mut data = Vec::new();
-            if let Some(Value::Object(o)) = def.get("data") {
-                for (k, v) in o {
-                    data.push(ParamPair::new(k, &json_to_data(v)));
-                }
-            }
-            if entry == "execute" {
-                // through FsmExecutor::execute: the Fsm (and its tracer) is created inside the library
-                let path = format!("{}/{}.scxml", dir, name);
-                let _ = std::fs::write(&path, xml);
-                let dummy = ctx.new_session();
-                let before = ctx.sessions.lock().unwrap().len();
-                set_cur(&ctx, &dummy);
-                let r = std::panic::catch_unwind(std::panic::AssertUnwindSafe(|| {
-                    executor.execute(&path, make_actions(), rufsm::tracer::TraceMode::ALL)
-                }));
-                crate::rec::clear_cur();
-                match r {
-                    Ok(Ok(session)) => {
-                        let log = ctx.sessions.lock().unwrap().get(before).cloned();
-                        if let Some(log) = log {
-                            let tname = session.thread.as_ref().map(|t| t.thread().name().unwrap_or("?").to_string()).unwrap_or_default();
-                            sh.senders.lock().unwrap().insert(name.to_string(), session.sender.clone());
-                            names.push(json!([name, log.idx, session.session_id]));
-                            started.insert(name.to_string(), Started { log, sender: session.sender.clone(), session_id: session.session_id, thread: session.thread, tname });
-                        } else {
-                            errors.push(json!(format!("no tracer created for {}", name)));
-                        }
-                    }
-                    Ok(Err(e)) => errors.push(json!(format!("execute {} failed: {}", name, e))),
-                    Err(_) => errors.push(json!(format!("execute {} panicked: {}", name,
-                        take_panics_for(std::thread::current().name().unwrap_or("?")).join("; ")))),
-                }
-            } else {
-                match crate::run::parse_guarded(xml, &[std::path::PathBuf::from(&dir)]) {
-                    Err(e) => errors.push(json!(format!("parse {}: {}", name, e))),
-                    Ok(mut fsm) => {
-                        let log = ctx.new_session();
-                        fsm.tracer = Box::new(Rec { ctx: ctx.clone(), log: log.clone(), start_gate: false });
-                        let session = fsm::start_fsm_with_data_and_finish_mode(
-                            fsm, make_actions(), Box::new(executor.clone()), &data, FinishMode::KEEP_CONFIGURATION);
-                        let tname = session.thread.as_ref().map(|t| t.thread().name().unwrap_or("?").to_string()).unwrap_or_default();
-                        sh.senders.lock().unwrap().insert(name.to_string(), session.sender.clone());
-                        names.push(json!([name, log.idx, session.session_id]));
-                        started.insert(name.to_string(), Started { log, sender: session.sender.clone(), session_id: session.session_id, thread: session.thread, tname });
-                    }
-                }
-            }
+            start_session(&sh, &env, name);
         } else if let Some(groups) = st.get("threads").and_then(|x| x.as_array()) {
             let mut hs = Vec::new();
             for (pi, g) in groups.iter().enumerate() {
                 let sh2 = sh.clone();
+                let env2 = env.clone();
                 let steps: Vec<Value> = g.as_array().cloned().unwrap_or_default();
                 hs.push(std::thread::Builder::new().name(format!("producer_{}", pi + 1)).spawn(move || {
-                    producer_steps(&sh2, pi + 1, &steps);
+                    producer_steps(&sh2, &env2, pi + 1, &steps);
                 }).unwrap());
             }
             for h in hs {
@@ -172,7 +219,7 @@ pub fn run_scenario(job: &Value) -> Value {
         } else if let Some(ms) = st.get("settle").and_then(|x| x.as_u64()) {
             settle(&ctx, ms, deadline);
         } else if let Some(name) = st.get("cancel").and_then(|x| x.as_str()) {
-            if let Some(s) = started.get(name) {
+            if let Some(s) = env.started.lock().unwrap().get(name) {
                 let _ = s.sender.send(Box::new(Event::new_simple(fsm::EVENT_CANCEL_SESSION)));
             }
         } else if st.get("shutdown").is_some() {
@@ -181,10 +228,13 @@ pub fn run_scenario(job: &Value) -> Value {
                 errors.push(json!("shutdown panicked"));
             }
         } else {
-            producer_steps(&sh, 0, std::slice::from_ref(st));
+            producer_steps(&sh, &env, 0, std::slice::from_ref(st));
         }
     }
     // end: cancel everything that is still running, then wait for the top-level threads
+    let mut started = std::mem::take(&mut *env.started.lock().unwrap());
+    let names = env.names.lock().unwrap().clone();
+    errors.extend(env.errors.lock().unwrap().iter().cloned());
     for s in started.values() {
         let _ = s.sender.send(Box::new(Event::new_simple(fsm::EVENT_CANCEL_SESSION)));
     }
